@@ -12,6 +12,9 @@ Fixpoint objs (D : denv) (v : pval) {struct v} : list pval :=
        | PDict _ _ _ l => kt_objs D l ++ flat_map (fun kv => objs D (snd kv)) l
        | PDefDict _ _ _ f l => kt_objs D l ++ objs D f ++ flat_map (fun kv => objs D (snd kv)) l
        | POpFunc _ _ a => objs D a
+       | PObjArr _ _ _ _ l =>      (* len(obj), if it is a cached small int: it is met again below get_state(obj.shape) *)
+           (if is_small_int (Z.of_nat (length l)) then [PScalar (small_int_base + Z.of_nat (length l)) (SInt (Z.of_nat (length l)))] else [])
+           ++ flat_map (fun x => objs D x) l
        | PMasked _ _ _ d k => objs D d ++ objs D k
        | PRandState _ _ _ x => objs D x
        | PRandGen _ _ _ x y => objs D x ++ objs D y
@@ -57,6 +60,7 @@ Definition partial_okb (a k : pval) : bool :=
 Fixpoint fragb (F : cfacts) (D : denv) (v : pval) {struct v} : bool :=
   match v with
   | PScalar _ sc => scalar_rt_ok sc
+  | PBytes _ _ mo c _ => resolvable F mo c        (* bytes / bytearray and their subclasses: the dumped class is resolved at load *)
   | PSeq q _ mo c nt l => pstr_eqb mo (s "builtins") && negb nt && seq_clsb q c && forallb (fun x => fragb F D x) l
   | PDict _ mo c l => dict_clsb mo c && itemsb F D l && forallb (fun kv => fragb F D (snd kv)) l
   | PDefDict _ mo c f l =>
@@ -66,6 +70,11 @@ Fixpoint fragb (F : cfacts) (D : denv) (v : pval) {struct v} : bool :=
   | PFunc _ mo c | PType _ mo c => resolvable F mo c
   | POpFunc _ c a => resolvable F (s "operator") c && opfunc_okb c a && fragb F D a
   | PArr _ gen mo c _ => arr_clsb F gen mo c
+  | PObjArr _ mo c shape cells =>      (* rank 1 *)
+      pstr_eqb mo (s "numpy") && pstr_eqb c (s "ndarray")
+      && match shape with [d] => Z.eqb d (Z.of_nat (length cells)) | _ => false end
+      && scalar_rt_ok (SInt (Z.of_nat (length cells)))
+      && forallb (fun x => fragb F D x) cells
   | PSparse _ _ _ _ | PDType _ _ => true
   | PMasked _ mo c d k => pstr_eqb mo (s "numpy.ma") && pstr_eqb c (s "MaskedArray") && fragb F D d && fragb F D k
   | PRandState _ mo c x => resolvable F mo c && fragb F D x
@@ -144,7 +153,16 @@ Section Pack.
       clear Hi Hit. rewrite forallb_forall in Hall. induction l as [|x l IHl]; [exact I|]. inversion IH as [|? ? Hx Hr]; subst. split.
       + apply Hx; [apply Hall; left; reflexivity|]. apply (incl_flat (fun kv => objs D (snd kv)) (x :: l) x (or_introl eq_refl) Hi').
       + apply IHl; [exact Hr|intros y Hy; apply Hall; right; exact Hy|]. intros y Hy. apply Hi'. cbn [flat_map]. apply in_or_app. right. exact Hy.
-    - intros; discriminate.
+    - intros id mo c sh l IH Hf Hi. cbn [fragb] in Hf. apply andb_prop in Hf. destruct Hf as [Hf Hall]. apply andb_prop in Hf. destruct Hf as [Hf Hrt].
+      apply andb_prop in Hf. destruct Hf as [Hf Hsh]. apply andb_prop in Hf. destruct Hf as [Hmo Hc].
+      apply pstr_eqb_eq in Hmo, Hc. subst. destruct sh as [|d [|? ?]]; try discriminate Hsh. apply Z.eqb_eq in Hsh. subst d.
+      cbn [vok]. split; [unfold Objs; apply Hi; cbn [objs]; left; reflexivity|]. cbn [objs] in Hi.
+      split; [reflexivity|]. split; [reflexivity|]. split; [reflexivity|]. split; [exact Hrt|].
+      split; [intros Hsm; unfold Objs; apply Hi; right; rewrite Hsm; left; reflexivity|].
+      assert (Hi' : incl (flat_map (fun x => objs D x) l) U) by (intros y Hy; apply Hi; right; apply in_or_app; right; exact Hy).
+      clear Hi Hrt. rewrite forallb_forall in Hall. induction l as [|x l IHl]; [exact I|]. inversion IH as [|? ? Hx Hr]; subst. split.
+      + apply Hx; [apply Hall; left; reflexivity|]. apply (incl_flat (fun x => objs D x) (x :: l) x (or_introl eq_refl) Hi').
+      + apply IHl; [exact Hr|intros y Hy; apply Hall; right; exact Hy|]. intros y Hy. apply Hi'. cbn [flat_map]. apply in_or_app. right. exact Hy.
     - intros id mo c d k IHd IHk Hf Hi. cbn [fragb] in Hf. apply andb_prop in Hf. destruct Hf as [Hf Hfk]. apply andb_prop in Hf. destruct Hf as [Hf Hfd].
       apply andb_prop in Hf. destruct Hf as [Hmo Hc]. apply pstr_eqb_eq in Hmo, Hc. subst.
       cbn [vok]. split; [unfold Objs; apply Hi; cbn [objs]; left; reflexivity|]. split; [reflexivity|]. split; [reflexivity|]. cbn [objs] in Hi. split.
@@ -210,8 +228,10 @@ Proof.
   destruct (vok_Q D F (c_env C) C [] base Objs Ofun Oid Hr HC Hs (fun h x1 x2 H1 => match H1 with end) HEC HCg v Hv _ _ _ Hst ltac:(cbn; lia))
     as [Hl [_ [[_ [Hftd _]] _]]].
   split; [exact Hl|].
-  assert (HFone : forall h x1 x2, In (h, x1) (file_table j) -> In (h, x2) (file_table j) -> x1 = x2)
-    by (exact (FTd_one base Objs Ofun Oid j Hftd)).
+  assert (Hmok0 : MOK base Objs (init_dst base)) by (intros f b Hd; discriminate Hd).
+  rewrite <- HCm in Hftd.
+  assert (HFone : forall h x1 x2, In (h, x1) (file_table j) -> In (h, x2) (file_table j) -> fblob C x1 = fblob C x2)
+    by (exact (FTd_one C base Objs Ofun Oid _ j Hmok0 Hftd)).
   destruct (vok_Q D F (c_env C) C (file_table j) base Objs Ofun Oid Hr HC Hs HFone HEC HCg v Hv _ _ _ Hst ltac:(cbn; lia)) as [_ [_ [_ HQ]]].
   assert (Hpre : Pre C (file_table j) base Objs (init_dst base) j st).
   { split; [intros f b Hd; discriminate Hd|]. split; [rewrite HCm; apply lk_refl|apply incl_refl]. }
